@@ -1,5 +1,6 @@
 import TPV.Model.Proto
 import TPV.Model.Condition
+import TPV.Model.ConditionInt
 open TPV TPV.Proto TPV.CondExpr TPV.Cond
 
 /-! line protocol of C04 (see harness/c04.py for the grammar); every number is an exact rational -/
@@ -149,6 +150,31 @@ def step (line : String) : String :=
         let rs ← donResiduals c psp xsp prows xrows
         let l ← donLoss c psp xsp prows xrows
         pure (l, rs.flatten, bound.flatten))
+    | "int" => do
+      let sp ← space; let isp ← space; let rows ← table; let irows ← table
+      let n ← netND; let res ← ufun; let ufs ← userFns; let pre ← preSets
+      let ps ← named; let ek ← errKind; let rk ← redKind
+      return showResult (do
+        let dfs ← setupDataFns sp pre ufs
+        let c : IntCond Rat := { net := n, resid := res, dataFns := dfs, params := ps, err := ek, red := rk }
+        let bound ← rows.zipIdx.mapM fun ri => do
+          let a ← intRowArgs c sp isp rows.length ri.2 ri.1 irows
+          c.resid.params.mapM (bindArg c.resid.defaults a)
+        let rs ← intResiduals c sp isp rows irows
+        let l ← intLoss c sp isp rows irows
+        pure (l, rs, bound))
+    | "aw" => do
+      let sp ← space; let rows ← table; let n ← net; let res ← ufun; let ufs ← userFns; let pre ← preSets
+      let ps ← named; let ek ← errKind; let ws ← many rat
+      return showResult (do
+        let dfs ← setupDataFns sp pre ufs
+        let c : SMCond Rat := { net := some n, resid := res, dataFns := dfs, params := ps, err := ek, red := .mean }
+        let bound ← rows.zipIdx.mapM fun ri => do
+          let a ← rowArgs c sp rows.length ri.2 ri.1
+          c.resid.params.mapM (bindArg c.resid.defaults a)
+        let rs ← residuals c sp rows
+        let l ← awLoss c ws sp rows
+        pure (l, rs, bound))
     | _ => return "bad-op" : P String).run' (tokens line)
   match r with
   | .ok s => s
